@@ -962,6 +962,46 @@ func (d *Ledger) balanceOf(acct string, key []byte) int64 {
 	return 0
 }
 
+// wrongRoleHolder finds an account that holds some role for a token but NOT the given one (the caller a role check must refuse
+// even though the account is "known" to the token).
+func (d *Ledger) wrongRoleHolder(role string) (string, []byte, bool) {
+	type rh struct {
+		a string
+		t []byte
+	}
+	var l []rh
+	want := fmt.Sprintf("%x", role)
+	for _, ai := range d.W.Addrs {
+		if ai.Shard < 0 || ai.Kind == "junk" {
+			continue
+		}
+		acc := d.P.Acct(d.W.Shards[ai.Shard].Peek(ai.Bytes))
+		ks := make([]string, 0)
+		for t := range acc.Roles {
+			ks = append(ks, t)
+		}
+		sort.Strings(ks)
+		for _, t := range ks {
+			has := false
+			for _, r := range acc.Roles[t] {
+				if r == want {
+					has = true
+				}
+			}
+			if !has && len(acc.Roles[t]) > 0 {
+				var tb []byte
+				fmt.Sscanf(t, "%x", &tb)
+				l = append(l, rh{ai.Name, tb})
+			}
+		}
+	}
+	if len(l) == 0 {
+		return "", nil, false
+	}
+	x := l[d.R.Intn(len(l))]
+	return x.a, x.t, true
+}
+
 func (d *Ledger) actMintBurn() {
 	mint := d.chance(50)
 	role, fn := "ESDTRoleLocalBurn", "ESDTLocalBurn"
@@ -971,6 +1011,9 @@ func (d *Ledger) actMintBurn() {
 	a, tok, ok := d.roleHolder(role)
 	if !ok || d.chance(10) {
 		a, tok = d.anyAcct(), d.pickTok(d.Fung)
+	}
+	if wa, wt, wok := d.wrongRoleHolder(role); wok && d.chance(15) {
+		a, tok = wa, wt // holds another role for this token, not the one this operation needs
 	}
 	if d.chance(8) {
 		tok = d.pickTok(d.Fung) // maybe a token the caller has no role for
@@ -1003,6 +1046,9 @@ func (d *Ledger) actCreate() {
 	if !ok || d.chance(8) {
 		a, tok = d.anyAcct(), d.pickTok(d.NFT)
 	}
+	if wa, wt, wok := d.wrongRoleHolder("ESDTRoleNFTCreate"); wok && d.chance(6) {
+		a, tok = wa, wt
+	}
 	qty := int64(1)
 	if d.chance(50) {
 		qty = int64(d.R.Intn(5))
@@ -1034,6 +1080,9 @@ func (d *Ledger) actNFTRoleOp() {
 		}
 		h := hs[d.R.Intn(len(hs))]
 		a, tok = h.acct, h.tok
+	}
+	if wa, wt, wok := d.wrongRoleHolder(roles[i]); wok && d.chance(15) {
+		a, tok = wa, wt
 	}
 	nonce := uint64(1 + d.R.Intn(3))
 	have := int64(0)
